@@ -6,7 +6,22 @@ abbrev Bytes := List UInt8
 /-- the C-string view of a buffer: everything before the first NUL -/
 def cstr (b : Bytes) : Bytes := b.takeWhile (· ≠ 0)
 
+/-- only for the driver and for readable comments: not kernel-reducible, never used in the model -/
 def strBytes (s : String) : Bytes := s.toUTF8.toList
+
+/-! member names and literals the library uses, as explicit bytes (kernel-reducible) -/
+namespace N
+def alg : Bytes := [97, 108, 103]
+def typ : Bytes := [116, 121, 112]
+def JWT : Bytes := [74, 87, 84]
+def exp : Bytes := [101, 120, 112]
+def nbf : Bytes := [110, 98, 102]
+def iat : Bytes := [105, 97, 116]
+def iss : Bytes := [105, 115, 115]
+def sub : Bytes := [115, 117, 98]
+def aud : Bytes := [97, 117, 100]
+def none : Bytes := [110, 111, 110, 101]
+end N
 
 /-- bounds-checked buffer write (`none` = out of bounds) -/
 def bufSet (b : Bytes) (i : Nat) (v : UInt8) : Option Bytes :=
